@@ -59,6 +59,12 @@ def base_md(backend: str) -> List[Dict[str, Any]]:
     for _, _, t in UNIVERSE[backend]:
         out.append({"metadata_type": "add_method_type_info", "type_string": t, "method_name": "kids",
                     "return_type_element": t + "*"})
+    # a method-style plug-in (like the built-in getAttributeFloat): `x.fv_attr(k)` is rewritten by NAME into injected C++ in
+    # which obj_j stands for the object the method is called on - every call site keeps its own object
+    acc = "->" if backend == "atlas" else "."
+    out.append({"metadata_type": "add_cpp_function", "name": "fv_attr", "include_files": [], "arguments": ["scale"],
+                "code": [f"auto result = obj_j{acc}pt() * scale;"], "return_type": "double", "method_object": "obj_j",
+                "instance_object": "xAOD::Jet"})
     return out
 
 
@@ -327,6 +333,9 @@ class QGen:
         r = self.rng.random()
         o = self.rng.choice([x] + objs) if objs and self.rng.random() < 0.35 else x
         if d <= 0 or r < 0.30:
+            if self.rng.random() < 0.2:
+                self.op("method-plugin")
+                return f"{o}.fv_attr({self.rng.choice(['2.0', '0.5'])})"
             return f"{o}.{self.rng.choice(['pt', 'eta', 'phi'])}()"
         if r < 0.40:
             return f"{o}.pt() / 1000.0"
